@@ -25,22 +25,44 @@ EXTENDS Integers, Sequences, FiniteSets, TLC, Json
 CONSTANTS Family, NegLo, VHi
 Values == (0 - NegLo)..VHi
 
-VARIABLES defs, v, cur, visited, rep, phase
-vars == <<defs, v, cur, visited, rep, phase>>
+VARIABLES defs, v, cur, visited, rep, phase, start
+vars == <<defs, v, cur, visited, rep, phase, start>>
 
 Undefined == [sys |-> "undefined"]
 Names == {"x", "y"}
 
 SymOf(name) == IF name = "x" THEN <<"a", "b", "c">> ELSE <<"p", "q", "r">>
+Roman(up) == IF up THEN <<[w |-> 1000, s |-> "M"], [w |-> 900, s |-> "CM"], [w |-> 500, s |-> "D"], [w |-> 400, s |-> "CD"], [w |-> 100, s |-> "C"],
+                          [w |-> 90, s |-> "XC"], [w |-> 50, s |-> "L"], [w |-> 40, s |-> "XL"], [w |-> 10, s |-> "X"], [w |-> 9, s |-> "IX"],
+                          [w |-> 5, s |-> "V"], [w |-> 4, s |-> "IV"], [w |-> 1, s |-> "I"]>>
+             ELSE <<[w |-> 1000, s |-> "m"], [w |-> 900, s |-> "cm"], [w |-> 500, s |-> "d"], [w |-> 400, s |-> "cd"], [w |-> 100, s |-> "c"],
+                    [w |-> 90, s |-> "xc"], [w |-> 50, s |-> "l"], [w |-> 40, s |-> "xl"], [w |-> 10, s |-> "x"], [w |-> 9, s |-> "ix"],
+                    [w |-> 5, s |-> "v"], [w |-> 4, s |-> "iv"], [w |-> 1, s |-> "i"]>>
+Latin(up) == IF up THEN <<"A","B","C","D","E","F","G","H","I","J","K","L","M","N","O","P","Q","R","S","T","U","V","W","X","Y","Z">>
+             ELSE <<"a","b","c","d","e","f","g","h","i","j","k","l","m","n","o","p","q","r","s","t","u","v","w","x","y","z">>
 \* additive tuple sets, weights strictly decreasing
 Tuples(id) == CASE id = 1 -> <<[w |-> 5, s |-> "V"], [w |-> 1, s |-> "I"]>>
                 [] id = 2 -> <<[w |-> 5, s |-> "V"], [w |-> 1, s |-> "I"], [w |-> 0, s |-> "N"]>>
                 [] id = 3 -> <<[w |-> 3, s |-> "T"], [w |-> 2, s |-> "D"]>>
                 [] id = 4 -> <<[w |-> 1, s |-> "I"]>>
+                [] id = 10 -> Roman(FALSE) [] id = 11 -> Roman(TRUE)
                 [] OTHER -> <<>>
 
 Decimal == [sys |-> "numeric", n |-> 10, first |-> 1, add |-> 0, rng |-> [auto |-> TRUE, lo |-> 0, hi |-> 0],
             pad |-> 0, neg |-> "", fb |-> "", ext |-> "", syms |-> <<"0", "1", "2", "3", "4", "5", "6", "7", "8", "9">>]
+
+\* some of the predefined styles of CSS Counter Styles 3 section 6 (the user-agent sheet must define them so)
+PredefNames == {"decimal-leading-zero", "lower-roman", "upper-roman", "lower-alpha", "upper-latin", "disc", "cjk-decimal"}
+Predef(name) ==
+  LET b == [Decimal EXCEPT !.add = 0] IN
+  CASE name = "decimal-leading-zero" -> [b EXCEPT !.pad = 2]
+    [] name = "lower-roman" -> [b EXCEPT !.sys = "additive", !.add = 10, !.rng = [auto |-> FALSE, lo |-> 1, hi |-> 3999], !.n = 0]
+    [] name = "upper-roman" -> [b EXCEPT !.sys = "additive", !.add = 11, !.rng = [auto |-> FALSE, lo |-> 1, hi |-> 3999], !.n = 0]
+    [] name = "lower-alpha" -> [b EXCEPT !.sys = "alphabetic", !.n = 26, !.syms = Latin(FALSE)]
+    [] name = "upper-latin" -> [b EXCEPT !.sys = "alphabetic", !.n = 26, !.syms = Latin(TRUE)]
+    [] name = "disc" -> [b EXCEPT !.sys = "cyclic", !.n = 1, !.syms = <<"BULLET">>]
+    [] name = "cjk-decimal" -> [b EXCEPT !.syms = <<"CJK0", "CJK1", "CJK2", "CJK3", "CJK4", "CJK5", "CJK6", "CJK7", "CJK8", "CJK9">>,
+                                         !.rng = [auto |-> FALSE, lo |-> 0, hi |-> 1000000]]
 
 \* a rule is valid only with enough symbols (section 3.1 ff.); an invalid rule defines nothing
 ValidRule(d) == CASE d.sys \in {"cyclic", "fixed", "symbolic"} -> d.n >= 1
@@ -55,6 +77,7 @@ Defined(ds, name) == name \in Names /\ ds[name] # Undefined /\ ValidRule(ds[name
 RECURSIVE Effective(_, _, _)
 Effective(ds, name, seen) ==
   IF name = "decimal" THEN Decimal
+  ELSE IF name \in PredefNames THEN Predef(name)
   ELSE IF ~Defined(ds, name) THEN Decimal
   ELSE LET d == ds[name] IN
     IF d.sys # "extends" THEN d @@ [syms |-> SubSeq(SymOf(name), 1, d.n)]
@@ -104,7 +127,7 @@ NegSuf(e) == IF e.neg = "paren" THEN <<")">> ELSE <<>>
 (* scenario spaces *)
 Rng(a, lo, hi) == [auto |-> a, lo |-> lo, hi |-> hi]
 Base(sys, n, first, add, rng, pad, neg, fb) ==
-  [sys |-> sys, n |-> n, first |-> first, add |-> add, rng |-> rng, rngset |-> ~rng.auto, pad |-> pad, neg |-> neg, fb |-> fb, ext |-> ""]
+  [sys |-> sys, n |-> n, first |-> first, add |-> add, rng |-> rng, rngset |-> ~rng.auto, pad |-> pad, neg |-> neg, fb |-> fb, ext |-> "", mb |-> FALSE]
 Ext(target, pad, neg, fb) ==
   [sys |-> "extends", n |-> 0, first |-> 1, add |-> 0, rng |-> Rng(TRUE, 0, 0), rngset |-> FALSE, pad |-> pad, neg |-> neg, fb |-> fb, ext |-> target]
 Ranges == {Rng(TRUE, 0, 0), Rng(FALSE, 2, 4), Rng(FALSE, -2, 2)}
@@ -119,6 +142,9 @@ Scenarios ==
   CASE Family = "single" ->   \* one author style x, every descriptor combination, fallback decimal / itself / missing
          {[x |-> Base(s.sys, s.n, s.first, s.add, r, p, ng, fb), y |-> Undefined] :
             s \in Systems, r \in Ranges, p \in {0, 3}, ng \in {"", "paren"}, fb \in {"", "x", "zz"}}
+         \* the same symbols written with two-byte characters: padding counts symbols, not bytes
+         \cup {[x |-> [Base(s.sys, s.n, s.first, s.add, Rng(TRUE, 0, 0), 3, ng, "") EXCEPT !.mb = TRUE], y |-> Undefined] :
+            s \in {t \in Systems : t.sys # "additive"}, ng \in {"", "paren"}}
     [] Family = "fallback" -> \* x falls back to y, y to x or decimal
          {[x |-> Base(s.sys, s.n, s.first, s.add, r, 0, "", "y"), y |-> yy] :
             s \in Systems, r \in Ranges, yy \in {YCyc, YNum, Undefined}}
@@ -127,21 +153,25 @@ Scenarios ==
             yy \in {YCyc, YNum, Undefined, Ext("x", 0, "", ""), Base("alphabetic", 3, 1, 0, Rng(TRUE, 0, 0), 0, "m", ""),
                     Base("additive", 0, 1, 2, Rng(TRUE, 0, 0), 0, "", "")}}
 
-Init == /\ defs \in Scenarios /\ v \in Values
-        /\ cur = "x" /\ visited = {} /\ rep = <<>> /\ phase = "lookup"
+PredefValues == {0 - 1000, 0 - 1, 0, 1, 4, 9, 14, 26, 27, 49, 99, 702, 703, 1994, 3999, 4000}
+Init == IF Family = "predef"
+        THEN /\ defs = [x |-> Undefined, y |-> Undefined] /\ v \in PredefValues /\ cur \in PredefNames
+             /\ visited = {} /\ rep = <<>> /\ phase = "lookup" /\ start = cur
+        ELSE /\ defs \in Scenarios /\ v \in Values
+             /\ cur = "x" /\ visited = {} /\ rep = <<>> /\ phase = "lookup" /\ start = "x"
 
 \* step 1: an unknown (or invalid) style, or one already tried in this fallback chain, means decimal
 Lookup == /\ phase = "lookup"
-          /\ IF cur = "decimal" \/ ~Defined(defs, cur) \/ cur \in visited
+          /\ IF cur = "decimal" \/ ~(Defined(defs, cur) \/ cur \in PredefNames) \/ cur \in visited
              THEN cur' = "decimal" /\ visited' = visited
              ELSE cur' = cur /\ visited' = visited \cup {cur}
-          /\ phase' = "range" /\ UNCHANGED <<defs, v, rep>>
+          /\ phase' = "range" /\ UNCHANGED <<defs, v, rep, start>>
 \* step 2: outside the range -> fallback style
 RangeCheck == /\ phase = "range"
               /\ LET e == Effective(defs, cur, {}) IN
                  IF InRange(e, v) THEN phase' = "generate" /\ cur' = cur
                  ELSE phase' = "lookup" /\ cur' = (IF e.fb = "" THEN "decimal" ELSE e.fb)
-              /\ UNCHANGED <<defs, v, visited, rep>>
+              /\ UNCHANGED <<defs, v, visited, rep, start>>
 \* step 3: run the algorithm on the absolute value when the system uses a negative sign; failure -> fallback
 Generate == /\ phase = "generate"
             /\ LET e == Effective(defs, cur, {})
@@ -149,19 +179,19 @@ Generate == /\ phase = "generate"
                    g == Algorithm(e, val) IN
                IF g.ok THEN rep' = g.r /\ phase' = "pad" /\ cur' = cur
                ELSE rep' = rep /\ phase' = "lookup" /\ cur' = (IF e.fb = "" THEN "decimal" ELSE e.fb)
-            /\ UNCHANGED <<defs, v, visited>>
+            /\ UNCHANGED <<defs, v, visited, start>>
 \* step 4: pad, counting the negative sign
 Pad == /\ phase = "pad"
        /\ LET e == Effective(defs, cur, {})
               signlen == IF v < 0 /\ UsesNeg(e.sys) THEN Len(NegPre(e)) + Len(NegSuf(e)) ELSE 0
               missing == e.pad - Len(rep) - signlen IN
           rep' = IF missing > 0 THEN Rept("0", missing) \o rep ELSE rep
-       /\ phase' = "negative" /\ UNCHANGED <<defs, v, cur, visited>>
+       /\ phase' = "negative" /\ UNCHANGED <<defs, v, cur, visited, start>>
 \* step 5: negative sign
 Negative == /\ phase = "negative"
             /\ LET e == Effective(defs, cur, {}) IN
                rep' = IF v < 0 /\ UsesNeg(e.sys) THEN NegPre(e) \o rep \o NegSuf(e) ELSE rep
-            /\ phase' = "done" /\ UNCHANGED <<defs, v, cur, visited>>
+            /\ phase' = "done" /\ UNCHANGED <<defs, v, cur, visited, start>>
 Next == Lookup \/ RangeCheck \/ Generate \/ Pad \/ Negative
 Spec == Init /\ [][Next]_vars /\ WF_vars(Next)
 
@@ -170,5 +200,5 @@ DecimalTotal == (phase = "range" /\ cur = "decimal") => InRange(Decimal, v) /\ A
 NonEmpty == phase = "done" => rep # <<>>
 Terminates == <>(phase = "done")
 
-Emit == phase = "done" => PrintT(ToJson([defs |-> defs, v |-> v, want |-> rep, via |-> cur]))
+Emit == phase = "done" => PrintT(ToJson([defs |-> defs, v |-> v, want |-> rep, via |-> cur, style |-> start]))
 =============================================================================
